@@ -23,6 +23,8 @@ static intptr_t f_ret(void) { return mock(); }
 static void *f_ptr(void) { return (void *)mock(); }
 static void f_out(void *out) { mock(out); }
 static void f_cap(intptr_t v) { mock(v); }
+static intptr_t f_capr(intptr_t v) { return mock(v); }
+static void f_two(double a, double b) { mock(box_double(a), box_double(b)); }
 static void f_cap4(intptr_t n, intptr_t next, intptr_t nex, intptr_t xn) { mock(n, next, nex, xn); }
 extern CgreenTest *current_test;
 static CgreenTest dummy = { 0, &defaultContext, "t", NULL, "f", 1 };
@@ -58,6 +60,26 @@ int main(void) {
             else out = unbox_double(box_double(d));
             unsigned long long ob; memcpy(&ob, &out, 8);
             printf("%016llx", ob);
+        } else if (!strncmp(line, "box2 ", 5)) {
+            /* several boxes alive at once: made first, opened later (in the other order), and two boxed arguments of one mock call */
+            unsigned long long b1, b2, o1, o2, o3, o4; double d1, d2;
+            sscanf(line + 5, "%llx %llx", &b1, &b2); memcpy(&d1, &b1, 8); memcpy(&d2, &b2, 8);
+            intptr_t x1 = box_double(d1), x2 = box_double(d2);
+            double r2 = unbox_double(x2), r1 = unbox_double(x1);
+            double c1 = 0, c2 = 0;
+            expect(f_two, will_capture_parameter(a, c1), will_capture_parameter(b, c2));
+            f_two(d1, d2);
+            clear_mocks();
+            memcpy(&o1, &r1, 8); memcpy(&o2, &r2, 8); memcpy(&o3, &c1, 8); memcpy(&o4, &c2, 8);
+            printf("%016llx %016llx %016llx %016llx", o1, o2, o3, o4);
+        } else if (!strncmp(line, "retu ", 5)) {
+            /* the value of will_return() when a clause of the same expectation names a parameter the mock does not pass (that clause is
+               reported; the call is served all the same) */
+            long long v; sscanf(line, "retu %lld", &v);
+            expect(f_capr, when(no_such_parameter, is_equal_to(1)), will_return(v));
+            long long r1 = (long long)f_capr(5);
+            clear_mocks();
+            printf("%lld", r1);
         } else if (!strncmp(line, "byval ", 6)) {
             int size; sscanf(line, "byval %d %32767s", &size, hx);
             size_t n = unhex(hx, bytes);
